@@ -67,7 +67,7 @@ func Diff(o core.Obs, r Res) string {
 		switch {
 		case len(r.Alts) > 0:
 			for _, a := range r.Alts {
-				if core.Equal(o.Val, a) {
+				if core.EqualFast(o.Val, a) {
 					return ""
 				}
 			}
@@ -90,7 +90,7 @@ func Diff(o core.Obs, r Res) string {
 				}
 			}
 		default:
-			if core.Equal(o.Val, r.Val) {
+			if core.EqualFast(o.Val, r.Val) {
 				return ""
 			}
 		}
